@@ -10,6 +10,7 @@ use proptest::strategy::BoxedStrategy;
 pub struct Profile {
     pub kinds: Vec<(u32, Kind)>,
     pub max_ops: usize,
+    pub min_ops: usize,
     /// percentage of cases using `String` keys
     pub str_pct: u32,
     pub w_put: u32,
@@ -44,6 +45,7 @@ impl Profile {
         Profile {
             kinds: vec![(3, Kind::Lru), (1, Kind::LruCb), (1, Kind::LruCbD), (3, Kind::Seg), (4, Kind::TwoQ), (4, Kind::Arc), (4, Kind::Wtl)],
             max_ops: if thorough { 150 } else { 40 },
+            min_ops: 0,
             str_pct: 0,
             w_put: 30,
             w_get: 14,
@@ -236,7 +238,7 @@ pub fn case_strategy(p: &Profile) -> BoxedStrategy<Case> {
             let p4 = p3.clone();
             (Just(kind), Just(cfg), Just(strpick), lo..=hi.max(lo), 0u32..100).prop_flat_map(move |(kind, cfg, strpick, a, prefill)| {
                 let cap = cfg.total_cap(kind);
-                let ops = prop::collection::vec(op_strategy(kind, a, cap, &p4), 0..=p4.max_ops);
+                let ops = prop::collection::vec(op_strategy(kind, a, cap, &p4), p4.min_ops.min(p4.max_ops)..=p4.max_ops);
                 let keys = if strpick < p4.str_pct { KeyMode::Str } else { KeyMode::Tracked };
                 // a large cache is useless to a 40-op history unless it starts (nearly) full:
                 // 2/3 of the large-capacity cases begin with one put per distinct key
